@@ -169,6 +169,17 @@ def run_case(case, ctx):
                                       f"with next {np.round(nexts, 6).tolist()})", tags=tags, witness=wit)
                 if not torch.equal(batch, keep):
                     ctx.violation("batch-modified", "SWAP.apply modified a larger batch", tags=tags)
+                # history: the same SWAP object on SMALLER batches after the larger one (a pair, then a single sample, which
+                # is its own partner): the values are those of the rows handed over now
+                i_, j_ = int(rng.integers(0, N)), int(rng.integers(0, N))
+                o2 = ctx.lib("SWAP.apply(pair after a larger batch)", ob.apply, st, torch.tensor(V[[i_, j_]], dtype=torch.double), tags=tags)
+                o1 = ctx.lib("SWAP.apply(single row after a larger batch)", ob.apply, st, torch.tensor(V[[j_]], dtype=torch.double), tags=tags)
+                ctx.count("shrinking_batch_checks")
+                if tuple(o2.shape) != (2,) or tuple(o1.shape) != (1,) or abs(float(o2[0]) - g[i_, j_]) > 1e-9 * (1 + abs(g[i_, j_])) \
+                        or abs(float(o2[1]) - g2[j_, i_]) > 1e-9 * (1 + abs(g2[j_, i_])) or abs(float(o1[0]) - g[j_, j_]) > 1e-9 * (1 + abs(g[j_, j_])):
+                    ctx.violation("stale-batch-state", f"SWAP(A={A}) re-used on a smaller batch after a larger one: pair ({i_},{j_}) gives "
+                                  f"{o2.tolist()} (fresh: {g[i_, j_]!r}, {g2[j_, i_]!r}), single row {j_} gives {o1.tolist()} (fresh: {g[j_, j_]!r})",
+                                  tags=tags, witness=wit)
     # derived entropies (evidence; implied by the purity check against the reference)
     if kd == "pure" and s2_by_region:
         full = tuple(range(nv))
